@@ -39,6 +39,7 @@ func C05(r *core.Run) {
 	rule054(r, ctx)
 	rule055(r)
 	rule056(r, ctx)
+	rule057(r)
 	rule016(r, "C05")
 }
 
@@ -247,41 +248,30 @@ func rule052(r *core.Run, ctx *oblig.Ctx) {
 	}
 	r.Check(valIsData && ks.Has("field:s3mem.bucketData.versionID") && ks.Has("field:s3mem.bucketObject.data") && !vs.HasPrefix("param:s3mem.(*bucket).put.item"), "R05.2", key(name, "Set(old.versionID, old)"), pos(r, set),
 		"archives the previous current version under its own id", "the archive call does not store the previous object.data under object.data.versionID (e.g. it stores the new item or uses the new id)")
-	// find the Enabled test and the data != nil test
-	var nonNilIf *ssa.If
-	var enabledIf *ssa.If
+	// the two tests that select the archive arm, as values (whatever branch shape carries them)
+	var nonNil, enabled *ssa.BinOp
+	nonNilTruth, enabledTruth := true, true
 	core.Instrs(fn, func(in ssa.Instruction) {
-		iff, ok := in.(*ssa.If)
-		if !ok {
+		b, ok := in.(*ssa.BinOp)
+		if !ok || (b.Op != token.EQL && b.Op != token.NEQ) {
 			return
 		}
-		cd := core.CondOf(iff.Cond)
-		s := r.P.SliceOf(iff.Cond, core.SliceOpts{Depth: -1})
-		if s.Has("field:s3mem.bucket.versioning") && s.Has("const:Enabled") && cd.Op == token.EQL {
-			enabledIf = iff
+		s := r.P.SliceOfMany([]ssa.Value{b.X, b.Y}, core.SliceOpts{Depth: -1})
+		if s.Has("field:s3mem.bucket.versioning") && s.Has("const:Enabled") {
+			enabled, enabledTruth = b, b.Op == token.EQL
 		}
-		if (core.IsNilConst(cd.Y) || core.IsNilConst(cd.X)) && s.Has("field:s3mem.bucketObject.data") && !s.Has("field:s3mem.bucketObject.versions") {
-			nonNilIf = iff
+		if (core.IsNilConst(b.Y) || core.IsNilConst(b.X)) && s.Has("field:s3mem.bucketObject.data") && !s.Has("field:s3mem.bucketObject.versions") {
+			nonNil, nonNilTruth = b, b.Op == token.NEQ
 		}
 	})
-	if enabledIf == nil || nonNilIf == nil {
+	if enabled == nil || nonNil == nil {
 		r.Violated("R05.2", key(name, "archive before replace"), pos(r, dataStore), "bucket.put lost the 'versioning == Enabled' / 'object.data != nil' tests that select the archive arm")
 		return
 	}
-	cd := core.CondOf(nonNilIf.Cond)
-	nonNilBranch := cd.Op == token.NEQ
-	if cd.Neg {
-		nonNilBranch = !nonNilBranch
-	}
-	blk := nonNilIf.Block().Succs[1]
-	if nonNilBranch {
-		blk = nonNilIf.Block().Succs[0]
-	}
-	underEnabled := core.GuardedBy(nonNilIf, enabledIf, true)
-	skip := len(blk.Instrs) > 0 && blk.Instrs[0] != ssa.Instruction(set) &&
-		core.ReachesAvoiding(blk.Instrs[0], dataStore, func(in ssa.Instruction) bool { return in == ssa.Instruction(set) })
-	// if the Set is the first instruction chain of blk, ReachesAvoiding from the first instr handles it
-	r.Check(underEnabled && !skip && core.Reaches(set, dataStore), "R05.2", key(name, "archive before replace"), pos(r, dataStore),
+	// with versioning enabled and a current version present, no path reaches the replacement without the archive call
+	skip := core.ReachableFromEntryAssumingAvoiding(dataStore, map[ssa.Value]bool{enabled: enabledTruth, nonNil: nonNilTruth},
+		func(in ssa.Instruction) bool { return in == ssa.Instruction(set) })
+	r.Check(!skip && core.Reaches(set, dataStore), "R05.2", key(name, "archive before replace"), pos(r, dataStore),
 		"on the Enabled ∧ data != nil arm every path to the replacement passes the archive Set", "with versioning enabled and a current version present, object.data can be replaced without first archiving it: the previous version is lost")
 }
 
@@ -646,4 +636,39 @@ func nilBlocked(r *core.Run, fn *ssa.Function, base ssa.Value) map[core.Edge]boo
 		}
 	})
 	return out
+}
+
+// rule057 — a version that becomes current carries an id from the generator.
+func rule057(r *core.Run) {
+	r.Rule("R05.7", "every freshly built bucketData that is stored as an object's current version outside bucket.put (the delete marker a plain delete leaves behind while versions remain) has its versionID set from the bucket's generator before it is published: a current version with an empty id cannot be addressed, paged past or told from 'null'")
+	n := 0
+	for _, st := range r.P.FieldStores("s3mem.bucketObject.data") {
+		a, ok := st.Val.(*ssa.Alloc)
+		if !ok || !isNamed(r, a.Type(), "s3mem", "bucketData") {
+			continue
+		}
+		n++
+		fn := st.Parent()
+		okID := false
+		for _, ref := range *a.Referrers() {
+			fa, isFA := ref.(*ssa.FieldAddr)
+			if !isFA || r.P.FieldName(fa) != "s3mem.bucketData.versionID" {
+				continue
+			}
+			for _, u := range *fa.Referrers() {
+				ist, isSt := u.(*ssa.Store)
+				if !isSt || ist.Addr != ssa.Value(fa) {
+					continue
+				}
+				vs := r.P.SliceOf(ist.Val, core.SliceOpts{Depth: -1})
+				if (vs.Has("field:s3mem.bucket.versionGen") || vs.HasCallTo("s3mem.(*Backend).nextVersion") || vs.HasCallTo("s3mem.(*versionGenerator).Next")) && core.Dominates(ist, st) {
+					okID = true
+				}
+			}
+		}
+		r.Check(okID, "R05.7", key(fname(r, fn), "published version has a generated id", sprintf("#%d", n)), pos(r, st), "versionID = versionGen() before the store", "a freshly built version becomes the key's current version without an id from the generator: it is listed with an empty id (shown as 'null'), cannot be addressed by id and a page ending on it cannot be continued")
+	}
+	if n == 0 {
+		r.Info("R05.7", "none", "", "no fresh bucketData is stored as current version outside put")
+	}
 }
